@@ -186,7 +186,15 @@ template <class A> static Verdict incomplete_one(unsigned present, int state = 0
   VF_REQUIRE(rc == WANT, "%s: compose with incomplete manager %u: rc=%d", A::name(), present, rc);
   rc = A::FreeQueryListMm(nullptr, &m);
   VF_REQUIRE(rc == WANT, "%s: free-query-list with incomplete manager %u: rc=%d", A::name(), present, rc);
+  rc = uriTestMemoryManager(&m);
+  VF_REQUIRE(rc == WANT, "uriTestMemoryManager on incomplete manager %u: rc=%d", present, rc);
   VF_REQUIRE(L.requests == 0 && L.frees == 0 && L.bad_free == 0, "%s: incomplete manager %u was used (%llu requests)", A::name(), present, (unsigned long long)L.requests);
+  // the library's own self-test of a manager: a complete recording manager passes it and ends with an empty ledger
+  {
+    LedgerMM whole;
+    VF_REQUIRE(uriTestMemoryManager(&whole.mm) == 0, "uriTestMemoryManager rejects a complete manager");
+    VF_REQUIRE(whole.outstanding() == 0 && whole.bad_free == 0, "uriTestMemoryManager left the manager's ledger unbalanced (%zu outstanding) %s", whole.outstanding(), whole.bad_free_what.c_str());
+  }
   // uriCompleteMemoryManager itself needs malloc and free only
   UriMemoryManager out;
   rc = uriCompleteMemoryManager(&out, &m);
